@@ -272,6 +272,24 @@ CHECKS['C12'] = {
     ],
 }
 
+SC_NOTE = ('Trusted: the contract-level models of Mutex and WaitCondition inside the scheduler (their internals are replaced at the hook, so they are trusted, not tested), and the atomicity of std::atomic operations and of the real primitives inside a hook point. '
+           'Unbounded liveness (starvation under an infinite unfair schedule) is outside any finite test: decided as "no deadlock and no overtaking within the explored bounded schedules".')
+
+CHECKS['C18'] = {
+    'level': 'exploration',
+    'technique': 'schedule-exploring property testing: the real ReaderWriterMutex runs on a harness-owned scheduler (hooks in Mutex/WaitCondition) that decodes the interleaving and timeout firings from the case bytes; holder-set / counting / writer-preference invariants over the history; deadlock detection; bounded exhaustive DFS over schedules with a preemption bound for small configurations',
+    'level_text': ('Generated (script, schedule) search: 2-4 threads x <= 6 operations from lock/try/timed/recursive/upgrade/unlock incl. bogus unlocks, both writer-preference settings, every context switch and timeout firing chosen by the schedule bytes. '
+                   'A fraction of the cases enumerates ALL schedules of a small configuration up to 2-3 preemptions (stateless DFS, capped at 600 schedules per configuration and reported as complete or capped). '
+                   'Oracle: never a writer with another holder, counts match, failed try/timed leaves state unchanged, try never blocks, waiting writer not overtaken by a later reader (preference on), no deadlock, lock free again at the end. Held = no schedule explored violated any of these.'),
+    'level_note': SC_NOTE + ' An upgrading reader is treated as holding nothing during the LockReadWrite call (documented: the upgrade temporarily drops the read locks).',
+    'rule': ('Byte-decoded cases: scripts + schedule. Non-trivial (random mode): some acquire blocked and was later granted, or an upgrade was attempted while another reader held the lock; (exhaustive mode) >= 2 schedules enumerated. Distinct: hash of scripts and of the choices made.'),
+    'assumptions': ['scripts are compliant: everything acquired is eventually released'],
+    'targets': [
+        {'name': 'c18_rwmutex', 'src': ['harness/C18_rwmutex.cpp'], 'quick_n': 40000, 'thorough_n': 2000000, 'maxlen': 300, 'min_nontrivial': 5000, 'budget': 120,
+         'class_floors': {'case_blocked_acquire_later_granted': 5000, 'case_upgrade_while_another_reader_holds': 500, 'case_with_failed_try_or_timed_acquire': 3000, 'case_reader_arrives_while_writer_waits': 200, 'exhaustive_configs': 100, 'determinism_selftests': 1000}},
+    ],
+}
+
 
 def setup():
     t0 = time.time()
